@@ -124,7 +124,7 @@ func (ih *Inhibitor) processAlert(ctx context.Context, a *types.Alert) {
 		if r.SourceMatchers.Matches(a.Labels) {
 			attr := attribute.String("alerting.inhibit_rule.name", r.Name)
 			span.AddEvent("alert matched rule source", trace.WithAttributes(attr))
-			if err := r.scache.Set(a); err != nil {
+			if err := r.setSource(a); err != nil {
 				message := "error on set alert"
 				ih.logger.Error(message, "err", err)
 				span.SetStatus(codes.Error, message)
@@ -132,7 +132,6 @@ func (ih *Inhibitor) processAlert(ctx context.Context, a *types.Alert) {
 				continue
 			}
 			span.SetAttributes(attr)
-			r.updateIndex(a)
 		}
 	}
 }
@@ -264,6 +263,11 @@ type InhibitRule struct {
 	// Multiple source alerts can have exact equal labels, so each index item holds all of them: any of them that
 	// is still firing inhibits, no matter which of them was updated, resolved or garbage collected last.
 	sindex *index
+
+	// mtx makes the two writes of a source update (cache, then index) and the
+	// index clean-up that follows a garbage collection of the cache atomic
+	// with respect to each other.
+	mtx sync.Mutex
 }
 
 // NewInhibitRule returns a new InhibitRule based on a configuration definition.
@@ -343,6 +347,17 @@ func (r *InhibitRule) fingerprintEquals(lset model.LabelSet) model.Fingerprint {
 	return equalSet.Fingerprint()
 }
 
+// setSource stores the source alert in the cache and adds it to the index.
+func (r *InhibitRule) setSource(alert *types.Alert) error {
+	r.mtx.Lock()
+	defer r.mtx.Unlock()
+	if err := r.scache.Set(alert); err != nil {
+		return err
+	}
+	r.updateIndex(alert)
+	return nil
+}
+
 // updateIndex adds the source alert to the index.
 func (r *InhibitRule) updateIndex(alert *types.Alert) {
 	r.sindex.Add(r.fingerprintEquals(alert.Labels), alert.Fingerprint())
@@ -369,8 +384,17 @@ func (r *InhibitRule) findEqualSourceAlert(lset model.LabelSet, excludeTwoSidedM
 	return found, found != nil
 }
 
+// gcCallback removes the index entries of source alerts that the cache has
+// garbage collected. It runs after the cache has released its lock: a source
+// that was stored again in the meantime is cached and indexed, and keeps its
+// index entry.
 func (r *InhibitRule) gcCallback(alerts []*types.Alert) {
+	r.mtx.Lock()
+	defer r.mtx.Unlock()
 	for _, a := range alerts {
+		if _, err := r.scache.Get(a.Fingerprint()); err == nil {
+			continue
+		}
 		r.sindex.Delete(r.fingerprintEquals(a.Labels), a.Fingerprint())
 	}
 }
